@@ -22,6 +22,7 @@ import (
 	"syscall"
 	"time"
 
+	"github.com/NethermindEth/juno/utils/verifhook"
 	"verif/harness/lib"
 )
 
@@ -161,6 +162,54 @@ type runner struct {
 	sawGC    bool
 	hot      int // steps left in which every image is checked
 	replayed bool
+	hooked   []hookSnap // copies of the directory taken at the crash points of the running operation
+}
+
+// hookSnap is a copy of the WAL directory taken by the crash-point hook (utils/verifhook) while a
+// real Flush / Close was running: a crash image that was observed, not constructed.
+type hookSnap struct {
+	Point string
+	Dir   string // data directory holding the copy
+}
+
+// best keeps, per violation signature, the violation with the shortest history.
+var best = map[string]lib.Violation{}
+
+func replaySize(v lib.Violation) int {
+	if mp, ok := v.Replay.(map[string]any); ok {
+		switch ops := mp["ops"].(type) {
+		case []Op:
+			return len(ops)
+		case []any:
+			return len(ops)
+		}
+	}
+	return 1 << 30
+}
+
+func keepBest(v lib.Violation) {
+	if old, ok := best[v.Sig]; !ok || replaySize(v) < replaySize(old) {
+		best[v.Sig] = v
+	}
+}
+
+func flushBest(res *lib.Result) {
+	for _, v := range best {
+		res.Violate(v)
+	}
+}
+
+// hookSink receives the crash points of the operation that is running (one history at a time
+// runs in a worker process).
+var hookSink func(point string)
+
+func (r *runner) record(point string) {
+	r.real.nimg++
+	dst := filepath.Join(r.real.root, fmt.Sprintf("hook%d", r.real.nimg))
+	if err := copyDir(walDirOf(r.real.db), walDirOf(dst)); err != nil {
+		return
+	}
+	r.hooked = append(r.hooked, hookSnap{Point: point, Dir: dst})
 }
 
 func (r *runner) ask(line string) string {
@@ -297,7 +346,7 @@ func (r *runner) checkDir(dbPath, label string, at any, wantOK bool, want []stri
 		} else if strings.Contains(err.Error(), "HANG") {
 			sig = "reopen-hangs-on-crash-image"
 		}
-		r.res.Violate(lib.Violation{Sig: sig,
+		keepBest(lib.Violation{Sig: sig,
 			What:   fmt.Sprintf("NewTendermintWALStore fails on a crash image (%s): %v", label, err),
 			Replay: r.replay(map[string]any{"image": at, "label": label})})
 		if wantOK {
@@ -314,7 +363,7 @@ func (r *runner) checkDir(dbPath, label string, at any, wantOK bool, want []stri
 	if !ok {
 		sig := classify(got, allowed, ackedPre, inflight)
 		r.res.Hit("image:violation")
-		r.res.Violate(lib.Violation{Sig: sig,
+		keepBest(lib.Violation{Sig: sig,
 			What:   fmt.Sprintf("after a crash (%s) LoadAllEntries returns %d entries, allowed: %d or %d (%s)", label, len(got), len(allowed[0]), len(allowed[len(allowed)-1]), sig),
 			Replay: r.replay(map[string]any{"image": at, "label": label, "got": got, "allowed": allowed})})
 	}
@@ -473,6 +522,167 @@ func (r *runner) imagesOf(cop, ft string, bs []base, every bool) {
 	}
 }
 
+// baseOf maps a crash point of the real code to the durable state of the model's operation
+// (index into Sys.bases) that describes the same moment; -1: no single base.
+func baseOf(point string, o Op, nb int, nthRemoved, removedTotal int) int {
+	if o.K == "close" {
+		nb -= 2
+	}
+	cleanup := nb >= 11 && o.F != "wm"
+	switch point {
+	case "walstore:flush:after-append-sync":
+		if o.F == "append" {
+			return 5 // truncated back
+		}
+		return 4
+	case "walstore:watermark:tmp-synced":
+		if cleanup {
+			return 5
+		}
+	case "walstore:watermark:renamed":
+		if cleanup {
+			return 7
+		}
+	case "walstore:cleanup:watermark-written", "walstore:cleanup:rotated":
+		if cleanup {
+			return 8
+		}
+	case "walstore:cleanup:removed-one":
+		if cleanup && nthRemoved == removedTotal {
+			return 10
+		}
+	}
+	return -1
+}
+
+// hookImages checks the directory copies taken at the crash points of the real operation that
+// just ran: each is a crash image the code really passed through. It is compared with the
+// durable state of the model for the same moment, reopened with the real code, and checked
+// against the property; where logs had been unlinked (not yet durable), every subset of them is
+// put back as well.
+func (r *runner) hookImages(o Op, bs []base, preDisk diskDesc) {
+	snaps := r.hooked
+	r.hooked = nil
+	if len(snaps) == 0 {
+		return
+	}
+	inflight := append([]call(nil), r.calls...)
+	allowed := [][]string{spec(r.acked), spec(append(append([]call(nil), r.acked...), inflight...))}
+	removedTotal := 0
+	for _, s := range snaps {
+		if s.Point == "walstore:cleanup:removed-one" {
+			removedTotal++
+		}
+	}
+	nth := 0
+	for _, s := range snaps {
+		r.res.Hit("hook:" + s.Point)
+		if s.Point == "walstore:cleanup:removed-one" {
+			nth++
+		}
+		desc, err := r.real.observe(s.Dir, false)
+		if err != nil {
+			r.res.Note("observe hook copy: %v", err)
+			continue
+		}
+		wantOK, want := true, []string(nil)
+		haveWant := false
+		if bi := baseOf(s.Point, o, len(bs), nth, removedTotal); bi >= 0 && bi < len(bs) {
+			r.res.Compared(1)
+			md := bs[bi].Disk
+			if o.F == "wm" {
+				md.Tmp, desc.Tmp = false, false // the injected failure is a directory in place of the tmp file
+			}
+			if !descEq(desc, md) {
+				r.mismatch("crash-point-state:"+s.Point, o.String(), md.String(), desc.String())
+			}
+			ans := r.ask(fmt.Sprintf("img %s %s %d %s", o.K, fault(o.F), bi, maskStr(0, len(md.Zombies))))
+			if parts := strings.SplitN(ans, " => ", 2); len(parts) == 2 && strings.HasPrefix(parts[1], "ok ") {
+				want, _ = parseLoad(strings.TrimPrefix(parts[1], "ok "))
+				haveWant = true
+			}
+		}
+		at := map[string]any{"point": s.Point, "disk": desc.String()}
+		if haveWant {
+			r.checkDir(s.Dir, "hook:"+s.Point, at, wantOK, want, allowed, r.acked, inflight, false)
+		} else {
+			r.checkOracleOnly(s.Dir, "hook:"+s.Point, at, allowed, inflight)
+		}
+		// logs unlinked since the operation began: the unlinks are not durable yet
+		present := map[uint64]bool{}
+		for _, f := range desc.Files {
+			present[f.Num] = true
+		}
+		var gone []uint64
+		for _, f := range preDisk.Files {
+			if !present[f.Num] {
+				gone = append(gone, f.Num)
+			}
+		}
+		if len(gone) > 0 {
+			var masks []uint64
+			full := uint64(1)<<uint(len(gone)) - 1
+			if len(gone) <= 3 {
+				for mk := uint64(1); mk <= full; mk++ {
+					masks = append(masks, mk)
+				}
+			} else {
+				masks = []uint64{full, 1, 1 << uint(len(gone)-1), r.rng.Uint64()&full | 1, full &^ 1, full &^ (1 << uint(len(gone)-1))}
+			}
+			for _, mk := range masks {
+				r.real.nimg++
+				dst := filepath.Join(r.real.root, fmt.Sprintf("hookz%d", r.real.nimg))
+				if err := copyDir(walDirOf(s.Dir), walDirOf(dst)); err != nil {
+					continue
+				}
+				ok := true
+				for i, num := range gone {
+					if mk>>uint(i)&1 == 0 {
+						continue
+					}
+					fr := r.real.files[num]
+					if fr == nil {
+						ok = false
+						break
+					}
+					content := append(append([]byte(nil), fr.bytes[:fr.ends[len(fr.ends)-1]]...), fr.trailer...)
+					if err := os.WriteFile(filepath.Join(walDirOf(dst), logName(num)), content, 0o644); err != nil {
+						ok = false
+					}
+				}
+				if ok {
+					r.res.Hit("hook:unlinked-logs-back")
+					r.checkOracleOnly(dst, "hook-unlinks-undone:"+s.Point, map[string]any{"point": s.Point, "disk": desc.String(), "back": gone, "mask": mk}, allowed, inflight)
+				}
+				_ = os.RemoveAll(dst)
+			}
+		}
+		_ = os.RemoveAll(s.Dir)
+	}
+}
+
+// checkOracleOnly reopens a directory and checks the result against the property alone.
+func (r *runner) checkOracleOnly(dbPath, label string, at any, allowed [][]string, inflight []call) {
+	got, err := recoverReal(dbPath)
+	r.nImages++
+	r.res.Case(fmt.Sprintf("%s/%d/%s/%v", r.name, len(r.log), label, at), len(allowed[0]) > 0 || len(allowed[len(allowed)-1]) > 0)
+	if err != nil {
+		keepBest(lib.Violation{Sig: "reopen-error-on-crash-image",
+			What:   fmt.Sprintf("NewTendermintWALStore fails on a crash image (%s): %v", label, err),
+			Replay: r.replay(map[string]any{"image": at, "label": label})})
+		return
+	}
+	for _, a := range allowed {
+		if eq(got, a) {
+			return
+		}
+	}
+	sig := classify(got, allowed, r.acked, inflight)
+	keepBest(lib.Violation{Sig: sig,
+		What:   fmt.Sprintf("after a crash (%s) LoadAllEntries returns %d entries, allowed: %d or %d (%s)", label, len(got), len(allowed[0]), len(allowed[len(allowed)-1]), sig),
+		Replay: r.replay(map[string]any{"image": at, "label": label, "got": got, "allowed": allowed})})
+}
+
 // snapshot copies the real directory as it is between two API calls and reopens the copy.
 func (r *runner) snapshot() {
 	if r.real.db == "" {
@@ -545,10 +755,21 @@ func (r *runner) withFault(o Op, f func() error) error {
 	switch o.F {
 	case "wm":
 		tmp := filepath.Join(wd, "prune-watermark.tmp")
+		var stale []byte
+		if fi, e := os.Lstat(tmp); e == nil && fi.Mode().IsRegular() {
+			stale, _ = os.ReadFile(tmp)
+			if stale == nil {
+				stale = []byte{}
+			}
+		}
 		_ = os.RemoveAll(tmp)
 		_ = os.Mkdir(tmp, 0o755) // os.OpenFile(tmp, O_CREATE|O_TRUNC|O_WRONLY) fails with EISDIR
 		err := f()
 		_ = os.RemoveAll(tmp)
+		if stale != nil && (err == nil || !strings.Contains(err.Error(), "writePruneWatermark")) {
+			// the watermark write was not attempted: the stale temporary file is still there
+			_ = os.WriteFile(tmp, stale, 0o644)
+		}
 		return err
 	case "append":
 		if !r.serial {
@@ -645,12 +866,18 @@ func (r *runner) exec(o Op) {
 		preAcked := spec(r.acked)
 		preBoth := spec(append(append([]call(nil), r.acked...), r.calls...))
 		preDisk, _ := r.real.observe(r.real.db, false)
+		watch := every || r.rng.Intn(6) == 0
+		r.hooked = nil
+		if watch {
+			hookSink = r.record
+		}
 		err := r.withFault(o, func() error {
 			if o.K == "flush" {
 				return guard(r.real.st.Flush)
 			}
 			return guard(r.real.st.Close)
 		})
+		hookSink = nil
 		postDisk, oerr := r.real.observe(r.real.db, true)
 		if oerr != nil {
 			r.res.Note("observe: %v", oerr)
@@ -673,13 +900,17 @@ func (r *runner) exec(o Op) {
 				committed = true
 				r.res.Hit(o.K + ":error-after-commit")
 			default:
-				r.res.Violate(lib.Violation{Sig: "failed-flush-leaves-partial-state-in-memory",
+				committed = totalBatches(postDisk) > totalBatches(preDisk)
+				keepBest(lib.Violation{Sig: "failed-flush-leaves-partial-state-in-memory",
 					What:   fmt.Sprintf("%s returned %v and LoadAllEntries shows neither the state before nor the state after the batch", o.K, err),
 					Replay: r.replay(map[string]any{"live": live})})
 			}
 		}
 		if bs != nil && (every || r.rng.Intn(12) == 0) {
 			r.imagesOf(o.K, o.F, bs, every)
+		}
+		if bs != nil {
+			r.hookImages(o, bs, preDisk)
 		}
 		m := r.ask(o.String())
 		r.res.Compared(1)
@@ -718,7 +949,7 @@ func (r *runner) exec(o Op) {
 			r.mismatch("outcome:open", "open", m, fmt.Sprint(err))
 		}
 		if err != nil {
-			r.res.Violate(lib.Violation{Sig: "reopen-error",
+			keepBest(lib.Violation{Sig: "reopen-error",
 				What:   fmt.Sprintf("NewTendermintWALStore fails on the directory the history left: %v", err),
 				Replay: r.replay(nil)})
 			r.failed = true
@@ -921,16 +1152,21 @@ func main() {
 	runRoot := filepath.Join(scratchRoot, fmt.Sprintf("run%d", os.Getpid()))
 	defer os.RemoveAll(runRoot)
 
+	verifhook.Set(func(p string) {
+		if f := hookSink; f != nil {
+			f(p)
+		}
+	})
 	if f.Replay != "" {
 		replayFile(f, res)
 		_ = os.RemoveAll(runRoot)
-		lib.Finish(f, res)
+		finish(f, res)
 	}
 
 	if *shardFlag < 0 {
 		parent(f, res)
 		_ = os.RemoveAll(runRoot)
-		lib.Finish(f, res)
+		finish(f, res)
 	}
 
 	// a shard: every history of this shard runs alone in this process, one after the other, so
@@ -969,6 +1205,11 @@ func main() {
 	}
 	res.Note("shard %d/%d: %d histories in %.1fs", *shardFlag, *shardsFlag, n, time.Since(t0).Seconds())
 	_ = os.RemoveAll(runRoot)
+	finish(f, res)
+}
+
+func finish(f lib.Flags, res *lib.Result) {
+	flushBest(res)
 	lib.Finish(f, res)
 }
 
@@ -1027,7 +1268,7 @@ func parent(f lib.Flags, res *lib.Result) {
 			res.Mismatch(m)
 		}
 		for _, v := range r.Violations {
-			res.Violate(v)
+			keepBest(v)
 		}
 		for _, n := range r.Notes {
 			res.Note("%s", n)
